@@ -52,11 +52,14 @@ def cases(tier):
         for i, k in enumerate(kinds):
             out.append({'fn': 'run_cmd_probe', 'id': f'cmd-probe/{cname}/{i}', 'params': {'wname': cname, 'cand': k}})
     out.append({'fn': 'run_constant', 'id': 'constant', 'params': {}})
+    for kind in ('export-true-on-hidden', 'export-name-on-hidden', 'readonly-false-without-write-method', 'readonly-true-on-writable',
+                 'export-in-unexported-module', 'scaled-constant', 'float-constant-in-subclass'):
+        out.append({'fn': 'run_cfg_overrides', 'id': f'cfg-overrides/{kind}', 'params': {'kind': kind}})
     for cfgname in ('demo_cfg.py', 'sim_cfg.py', 'test_cfg.py', 'cryo_cfg.py'):
         out.append({'fn': 'run_shipped', 'id': f'shipped/{cfgname}', 'params': {'cfg': cfgname}})
     for attr, wname in (('pf', '_pf'), ('cmd0', '_cmd0'), ('target', 'target')):
         out.append({'fn': 'run_cfg_unexported', 'id': f'cfg-unexported/{attr}', 'params': {'attr': attr, 'wname': wname}})
-    for v in ('readable', 'writable', 'drivable', 'communicator', 'feature', 'plain'):
+    for v in ('readable', 'writable', 'drivable', 'communicator', 'feature', 'plain', 'feature-last', 'feature-both'):
         out.append({'fn': 'run_classes', 'id': f'classes/{v}', 'params': {'variant': v}})
     for name in ('hidden', '_hidden', 'cust', '_cust', 'pf', 'zz', '_cmd0', '_hiddencmd'):
         out.append({'fn': 'run_undescribed', 'id': f'undescribed/m:{name}', 'params': {'mod': 'm', 'name': name}})
@@ -260,6 +263,93 @@ def run_cfg_unexported(env, p):
     env.note('reject-agree')
 
 
+def run_cfg_overrides(env, p):
+    """flags and names changed by the configuration: what is described is honoured, what is not described is not reachable"""
+    from frappy.core import Module, Parameter, FloatRange, ScaledInteger
+    from frappy.datatypes import get_datatype
+    kind = p['kind']
+    K = 'C06/cfg-overrides/' + kind
+    log = []
+
+    class Drv(Module):
+        hid = Parameter('hidden in the class', FloatRange(), readonly=False, default=1.5, export=False)
+        ro = Parameter('readonly without write method', FloatRange(), default=1.5)
+        rw = Parameter('writable', FloatRange(), readonly=False, default=1.5)
+        sc = Parameter('scaled constant', ScaledInteger(0.1, 0, 100), constant=1.5)
+        fc = Parameter('float constant', FloatRange(), constant=2.5)
+
+        def write_rw(self, value):
+            log.append(('rw', value))
+            return value
+
+        def write_hid(self, value):
+            log.append(('hid', value))
+            return value
+
+    class Sub(Drv):
+        pass
+    cfg = {'cls': Sub if kind == 'float-constant-in-subclass' else Drv, 'description': 'm'}
+    ucfg = {'cls': Drv, 'description': 'u', 'export': False}
+    if kind == 'export-true-on-hidden':
+        cfg['hid'] = {'export': True}
+    elif kind == 'export-name-on-hidden':
+        cfg['hid'] = {'export': '_shown'}
+    elif kind == 'readonly-false-without-write-method':
+        cfg['ro'] = {'readonly': False}
+    elif kind == 'readonly-true-on-writable':
+        cfg['rw'] = {'readonly': True}
+    elif kind == 'export-in-unexported-module':
+        ucfg['rw'] = {'export': 'w'}
+    try:
+        srv = C.make_node({'m': cfg, 'u': ucfg})
+    except Exception as e:
+        env.note('accept-agree'), env.note('reject-agree')
+        env.log('configuration refused', repr(e)[:100])
+        return      # a configuration refused as a whole is C10's subject
+    if srv.secnode.errors:
+        env.note('accept-agree'), env.note('reject-agree')
+        return
+    desc = srv.dispatcher.handle_request(C.Conn(), ('describe', '.', None))[2]
+    env.check(list(desc['modules']) == ['m'], K + '/module-list', list(desc['modules']))
+    acc = desc['modules']['m']['accessibles']
+    x = env.real('x', -100, 100)
+    # everything described is honoured
+    for wname, entry in acc.items():
+        h, per = C.scripted_handler(srv, [('read', 'm:' + wname, None), ('change', 'm:' + wname, x)])
+        rd, ch = per[0][-1], per[1][-1]
+        if env.check(rd[0] == 'reply', K + '/described-parameter-not-readable', [wname, rd[:2], rd[2][:2] if rd[0].startswith('error') else None]):
+            try:
+                dt = get_datatype(entry['datainfo'])
+                v = dt.import_value(rd[2][0])
+                dt.validate(v)
+            except Exception as e:
+                env.fail(K + '/emitted-value-not-importable-with-described-datainfo', [wname, rd[2][0], repr(e)[:80]])
+            if 'constant' in entry:
+                env.check(M.eq(rd[2][0], entry['constant']), K + '/constant-reads-differently', [wname, rd[2][0], entry['constant']])
+                want = {'_sc': 15, '_fc': 2.5}.get(wname)
+                if want is not None:
+                    env.check(entry['constant'] == want, K + '/described-constant-is-not-the-constant', [wname, entry['constant'], want])
+        refused = ch[0] == 'error_change'
+        if entry.get('readonly') or 'constant' in entry:
+            env.check(refused and ch[2][0] == 'ReadOnly', K + '/change-of-readonly-not-refused', [wname, ch[:2]])
+            env.note('reject-agree')
+        else:
+            # described as changeable: refused only for reasons the description shows (the value)
+            env.check(not refused or ch[2][0] in ('RangeError', 'WrongType'), K + '/change-of-writable-refused-for-other-reason',
+                      [wname, ch[2][:2] if refused else None])
+            env.note('accept-agree')
+    # nothing undescribed is reachable: class level names of hidden parameters, names in the unexported module
+    for spec in ('m:hid', 'm:_hid', 'm:_shown', 'u:w', 'u:_rw', 'u:rw', 'u:_w'):
+        if spec.startswith('m:') and spec[2:] in acc:
+            continue
+        n0 = len(log)
+        h, per = C.scripted_handler(srv, [('read', spec, None), ('change', spec, 1.0), ('activate', spec, None)])
+        for rq, rep in zip(('read', 'change', 'activate'), per):
+            env.check(rep[-1][0] == 'error_' + rq and rep[-1][2][0] in ('NoSuchModule', 'NoSuchParameter'), K + f'/undescribed-name-reachable/{rq}',
+                      [spec, rep[-1][:2]])
+        env.check(len(log) == n0, K + '/driver-reached-through-undescribed-name', spec)
+
+
 def covers(full, given):
     """emitted value equals the accepted one (a partial struct is merged into the current value)"""
     if isinstance(given, dict) and isinstance(full, dict):
@@ -275,8 +365,13 @@ def run_classes(env, p):
     class HasOffset(Feature):
         offset = Parameter('offs', FloatRange(), default=0)
 
+    class HasWindow(Feature):
+        window = Parameter('win', FloatRange(), default=0)
+
     base = {'readable': (Readable,), 'writable': (Writable,), 'drivable': (Drivable,), 'communicator': (Communicator,),
-            'feature': (HasOffset, Drivable), 'plain': (Module,)}[v]
+            'feature': (HasOffset, Drivable), 'plain': (Module,),
+            # the feature mixin listed after the interface class, and features on both sides of it
+            'feature-last': (Drivable, HasOffset), 'feature-both': (HasWindow, Writable, HasOffset)}[v]
 
     class X(*base):
         pass
@@ -287,9 +382,13 @@ def run_classes(env, p):
     d = srv.dispatcher.handle_request(C.Conn(), ('describe', '.', None))[2]['modules']['y']
     K = 'C06/classes/' + v
     want_iface = {'readable': ['Readable'], 'writable': ['Writable'], 'drivable': ['Drivable'], 'communicator': ['Communicator'],
-                  'feature': ['Drivable'], 'plain': []}[v]
+                  'feature': ['Drivable'], 'plain': [], 'feature-last': ['Drivable'], 'feature-both': ['Writable']}[v]
     env.check(list(d.get('interface_classes', [])) == want_iface, K + '/interface_classes', d.get('interface_classes'))
-    env.check(list(d.get('features', [])) == (['HasOffset'] if v == 'feature' else []), K + '/features', d.get('features'))
+    want_features = {'feature': ['HasOffset'], 'feature-last': ['HasOffset'], 'feature-both': ['HasOffset', 'HasWindow']}.get(v, [])
+    env.check(sorted(d.get('features', [])) == want_features, K + '/features', d.get('features'))
+    for f in want_features:
+        # what a feature promises is described as well
+        env.check({'HasOffset': '_offset', 'HasWindow': '_window'}[f] in d['accessibles'], K + '/feature-accessible-not-described', f)
     env.check(d.get('implementation', '').endswith('.Y'), K + '/implementation', d.get('implementation'))
     env.note('accept-agree')
     env.note('reject-agree')
